@@ -34,7 +34,10 @@ Utf8Len(c) == IF c < 128 THEN 1 ELSE IF c < 2048 THEN 2 ELSE IF c < 65536 THEN 3
 Utf8Text(t) == FlattenSeq([i \in 1..Len(t) |-> Utf8(t[i])])
 
 \* a RUN TEXT is a sequence of <<scalar, count>> (count >= 1): "a" * 70000 is one run.
-RunText(t) == [i \in 1..Len(t) |-> <<t[i], 1>>]
+\* (canonical: adjacent runs have different scalars, so equal texts are equal run texts)
+RunText(t) == FoldLeft(LAMBDA acc, ch : IF acc # <<>> /\ acc[Len(acc)][1] = ch
+                                         THEN [acc EXCEPT ![Len(acc)] = <<ch, @[2] + 1>>]
+                                         ELSE Append(acc, <<ch, 1>>), <<>>, t)
 RunBytes(rt) == FoldLeft(LAMBDA acc, r : acc + r[2] * Utf8Len(r[1]), 0, rt)
 RunChars(rt) == FoldLeft(LAMBDA acc, r : acc + r[2], 0, rt)
 ExpandRuns(rt) == FlattenSeq([i \in 1..Len(rt) |-> [j \in 1..rt[i][2] |-> rt[i][1]]])
